@@ -46,6 +46,29 @@ func main() {
 			os.Exit(2)
 		}
 		os.Exit(engine.RunReplay(os.Args[2]))
+	case "count":
+		// yaemc count <id> <tier>: number of generated cases per family (no execution)
+		if len(os.Args) < 4 {
+			fmt.Fprintln(os.Stderr, "usage: yaemc count <id> <tier>")
+			os.Exit(2)
+		}
+		d := engine.Lookup(os.Args[2])
+		if d == nil {
+			fmt.Fprintln(os.Stderr, "unknown property", os.Args[2])
+			os.Exit(2)
+		}
+		engine.CurrentTier = os.Args[3]
+		fam := map[string]int{}
+		total := 0
+		d.Generate(os.Args[3], func(c *engine.Case) bool {
+			fam[c.Family]++
+			total++
+			return true
+		})
+		for k, v := range fam {
+			fmt.Printf("%10d %s\n", v, k)
+		}
+		fmt.Printf("%10d total\n", total)
 	case "list":
 		for _, id := range engine.IDs() {
 			fmt.Println(id)
